@@ -113,6 +113,13 @@ class Gen:
             out.append(self.item(truth=truth))
         return out
 
+    def sprinkle(self, items):
+        """Occasionally put ``None`` among the items: the one value tools like to use as their own marker"""
+        if items and self.cfg.odd_items and self.ch.chance(1, 6):
+            for _ in range(self.ch.between(1, 2)):
+                items[self.ch.draw(len(items))] = None
+        return items
+
     def suspend_plan(self, n):
         ms = self.cfg.max_susp
         if self.all_suspend:
@@ -235,7 +242,7 @@ class _Zip(ToolBase):
         n = g.ch.between(1, 4) if not g.ch.chance(1, 12) else 0
         equal = g.ch.chance(1, 3)
         base = g.ch.draw(g.cfg.max_len + 1)
-        srcs = [g.src(g.items(base if equal else None)) for _ in range(n)]
+        srcs = [g.src(g.sprinkle(g.items(base if equal else None))) for _ in range(n)]
         return Spec("zip", srcs, [], {"strict": g.ch.chance(1, 2)})
 
     def a(self, L, spec, S, F):
@@ -265,7 +272,7 @@ class _Map(ToolBase):
 class _Filter(ToolBase):
     def gen(self, g):
         fn = None if g.ch.chance(1, 4) else g.pred()
-        return Spec("filter", [g.src(g.items(falsy=True))], [fn], {})
+        return Spec("filter", [g.src(g.sprinkle(g.items(falsy=True)))], [fn], {})
 
     def a(self, L, spec, S, F):
         return L.filter(F[0], S[0])
@@ -278,7 +285,7 @@ class _Filter(ToolBase):
 class _FilterFalse(ToolBase):
     def gen(self, g):
         fn = None if g.ch.chance(1, 4) else g.pred()
-        return Spec("filterfalse", [g.src(g.items(falsy=True))], [fn], {})
+        return Spec("filterfalse", [g.src(g.sprinkle(g.items(falsy=True)))], [fn], {})
 
     def a(self, L, spec, S, F):
         return L.filterfalse(F[0], S[0])
@@ -291,7 +298,7 @@ class _FilterFalse(ToolBase):
 class _Enumerate(ToolBase):
     def gen(self, g):
         start = ABSENT if not g.ch.chance(1, 2) else g.ch.draw(5) - 2
-        return Spec("enumerate", [g.src(g.items())], [], {"start": start})
+        return Spec("enumerate", [g.src(g.sprinkle(g.items()))], [], {"start": start})
 
     def a(self, L, spec, S, F):
         return L.enumerate(S[0], **_kw(start=spec.p["start"]))
@@ -366,7 +373,7 @@ class _Batched(ToolBase):
     def gen(self, g):
         n = g.ch.between(1, 4) if not g.ch.chance(1, 10) else 0
         strict = ABSENT if not g.ch.chance(1, 2) else g.ch.chance(1, 2)
-        return Spec("batched", [g.src(g.items())], [], {"n": n, "strict": strict})
+        return Spec("batched", [g.src(g.sprinkle(g.items()))], [], {"n": n, "strict": strict})
 
     def a(self, L, spec, S, F):
         return L.batched(S[0], spec.p["n"], **_kw(strict=spec.p["strict"]))
@@ -384,7 +391,7 @@ class _Chain(ToolBase):
 
     def gen(self, g):
         n = g.ch.draw(5)
-        srcs = [g.src(g.items()) for _ in range(n)]
+        srcs = [g.src(g.sprinkle(g.items())) for _ in range(n)]
         form = g.ch.draw(3)  # 0 chain(*its) 1 from_iterable(list) 2 from_iterable(agen)
         return Spec("chain", srcs, [], {"form": form})
 
@@ -412,7 +419,7 @@ class _Compress(ToolBase):
     nsrc = (2, 2)
 
     def gen(self, g):
-        data = g.src(g.items())
+        data = g.src(g.sprinkle(g.items()))
         sel = g.src(g.items(falsy=True))
         return Spec("compress", [data, sel], [], {})
 
@@ -428,7 +435,7 @@ class _Cycle(ToolBase):
     infinite = True
 
     def gen(self, g):
-        return Spec("cycle", [g.src(g.items())], [], {})
+        return Spec("cycle", [g.src(g.sprinkle(g.items()))], [], {})
 
     def a(self, L, spec, S, F):
         return L.cycle(S[0])
@@ -440,7 +447,7 @@ class _Cycle(ToolBase):
 @_reg(TOOLS, "dropwhile")
 class _DropWhile(ToolBase):
     def gen(self, g):
-        return Spec("dropwhile", [g.src(g.items(falsy=True))], [g.pred()], {})
+        return Spec("dropwhile", [g.src(g.sprinkle(g.items(falsy=True)))], [g.pred()], {})
 
     def a(self, L, spec, S, F):
         return L.dropwhile(F[0], S[0])
@@ -452,7 +459,7 @@ class _DropWhile(ToolBase):
 @_reg(TOOLS, "takewhile")
 class _TakeWhile(ToolBase):
     def gen(self, g):
-        return Spec("takewhile", [g.src(g.items(falsy=True))], [g.pred()], {})
+        return Spec("takewhile", [g.src(g.sprinkle(g.items(falsy=True)))], [g.pred()], {})
 
     def a(self, L, spec, S, F):
         return L.takewhile(F[0], S[0])
@@ -464,7 +471,7 @@ class _TakeWhile(ToolBase):
 @_reg(TOOLS, "islice")
 class _ISlice(ToolBase):
     def gen(self, g):
-        items = g.items()
+        items = g.sprinkle(g.items())
         hi = len(items) + 3
 
         def val(allow_none=True):
@@ -491,7 +498,7 @@ class _ISlice(ToolBase):
 @_reg(TOOLS, "pairwise")
 class _Pairwise(ToolBase):
     def gen(self, g):
-        return Spec("pairwise", [g.src(g.items())], [], {})
+        return Spec("pairwise", [g.src(g.sprinkle(g.items()))], [], {})
 
     def a(self, L, spec, S, F):
         return L.pairwise(S[0])
@@ -520,8 +527,11 @@ class _ZipLongest(ToolBase):
 
     def gen(self, g):
         n = g.ch.between(1, 4) if not g.ch.chance(1, 12) else 0
-        srcs = [g.src(g.items()) for _ in range(n)]
+        srcs = [g.src(g.sprinkle(g.items())) for _ in range(n)]
         fill = ABSENT if not g.ch.chance(1, 2) else g.item()
+        pool = [i for sp in srcs for i in sp.items]
+        if fill is not ABSENT and pool and g.ch.chance(1, 3):
+            fill = pool[g.ch.draw(len(pool))]  # the fill value is also one of the items (same object)
         return Spec("zip_longest", srcs, [], {"fillvalue": fill})
 
     def a(self, L, spec, S, F):
@@ -564,7 +574,7 @@ class _Tee(ToolBase):
 
     def gen(self, g):
         n = g.ch.between(1, 4)
-        items = g.items()
+        items = g.sprinkle(g.items())
         order = [g.ch.draw(n) for _ in range((len(items) + 1) * n)]
         return Spec("tee", [g.src(items)], [], {"n": n, "order": tuple(order)})
 
